@@ -281,6 +281,10 @@ func PatchLinker(goRoot, goVersion, cacheDir, tempDir string) (string, func(), e
 	if err != nil {
 		return "", nil, err
 	}
+	// Start from nothing: "go build -o" leaves an existing output file alone when
+	// its build ID says that it is up to date, even if the rest of it is missing.
+	os.Remove(outputLinkPath + versionExt)
+	os.Remove(outputLinkPath)
 	if err := buildLinker(goRoot, workingDir, overlay, outputLinkPath); err != nil {
 		return "", nil, err
 	}
